@@ -95,7 +95,7 @@ func vc05Reduced(r *lib.Rng) *big.Int {
 
 func TestVerifC05Reduction(t *testing.T) {
 	lib.Mandatory("wb25519:red512-full", "wb25519:red512-256", "wb25519:calculateS", "wb25519:final-borrow-region")
-	n := lib.Scale(200000, 5000000)
+	n := lib.Scale(200000, 3000000)
 	lib.Par(n, func(i int) {
 		r := lib.NewRng("c05/wb/red", i)
 		// ---- 512-bit inputs (hash outputs: every value is in the domain)
@@ -287,7 +287,7 @@ func vc05Enc(P *pointR1) []byte {
 func TestVerifC05Mult(t *testing.T) {
 	lib.Mandatory("wb25519:fixedMult", "wb25519:doubleMult", "wb25519:keygen-tail", "wb25519:doubleMult-identity", "wb25519:scalar-zero")
 	c := ref.C25519
-	n := lib.Scale(400, 20000)
+	n := lib.Scale(400, 10000)
 	so := c.SmallOrderPoints()
 	lib.Par(n, func(i int) {
 		r := lib.NewRng("c05/wb/mult", i)
@@ -368,9 +368,9 @@ func TestVerifC05Mult(t *testing.T) {
 		want = c.Encode(c.Add(c.ScalarMult(m, c.Gen), c.ScalarMult(nn, Qr)))
 		var R pointR1
 		if p := lib.Try("ed25519.doubleMult", append(lib.Clone(mb), nb...), func() { R.doubleMult(&Q, mb, nb); got = vc05Enc(&R) }); p != nil {
-			lib.Violation("C05:panic:ed25519.doubleMult:"+qclass, vc05MonMult, lib.D("m", mb, "n", nb, "Q", Qenc, "panic", p.Value))
+			lib.Violation("C05:panic:ed25519.doubleMult", vc05MonMult, lib.D("point_class", qclass, "m", mb, "n", nb, "Q", Qenc, "panic", p.Value))
 		} else if !lib.Eq(got, want) {
-			lib.Violation("C05:point-mismatch:ed25519.doubleMult:"+qclass, vc05MonMult, lib.D("m", mb, "n", nb, "Q", Qenc, "got", got, "want", want))
+			lib.Violation("C05:point-mismatch:ed25519.doubleMult", vc05MonMult, lib.D("point_class", qclass, "m", mb, "n", nb, "Q", Qenc, "got", got, "want", want))
 		}
 		lib.Count("wb25519:doubleMult")
 	})
